@@ -85,6 +85,22 @@ fn file_defs_of(f: &File) -> FileDefs {
             Item::Type(x) => {
                 d.types.insert(x.ident.to_string());
             }
+            Item::Impl(im) if im.trait_.is_some() => {
+                if let Some(t) = type_last_ident(&im.self_ty) {
+                    for ii in im.items.iter() {
+                        if let ImplItem::Type(a) = ii {
+                            let it = type_last_ident(&a.ty).filter(|_| matches!(strip_group(&a.ty), Type::Path(p) if p.qself.is_none() && p.path.segments.len() == 1 && matches!(p.path.segments[0].arguments, PathArguments::None)));
+                            let key = (t.clone(), a.ident.to_string());
+                            let v = match (d.assoc_types.get(&key), it) {
+                                (None, Some(i)) => Some(i),
+                                (Some(Some(old)), Some(i)) if *old == i => Some(i),
+                                _ => None,
+                            };
+                            d.assoc_types.insert(key, v);
+                        }
+                    }
+                }
+            }
             Item::Impl(im) if im.trait_.is_none() => {
                 if let Some(t) = type_last_ident(&im.self_ty) {
                     for ii in im.items.iter() {
@@ -119,7 +135,17 @@ fn type_last_ident(t: &Type) -> Option<String> {
     match t {
         Type::Path(p) => p.path.segments.last().map(|s| s.ident.to_string()),
         Type::Reference(r) => type_last_ident(&r.elem),
+        Type::Group(g) => type_last_ident(&g.elem),
+        Type::Paren(g) => type_last_ident(&g.elem),
         _ => None,
+    }
+}
+
+fn strip_group(t: &Type) -> &Type {
+    match t {
+        Type::Group(g) => strip_group(&g.elem),
+        Type::Paren(g) => strip_group(&g.elem),
+        t => t,
     }
 }
 
@@ -318,6 +344,7 @@ struct MacroBinding {
     param: String,
     bound: String,
     module: usize,
+    inst: String,
 }
 
 /// split a token stream at top-level commas
@@ -336,18 +363,30 @@ fn split_commas(ts: proc_macro2::TokenStream) -> Vec<Vec<proc_macro2::TokenTree>
 }
 
 /// where `$name` sits in a macro pattern: indices of comma-separated fragments, descending into the group of a fragment
-fn locate_param(pat: proc_macro2::TokenStream, name: &str) -> Option<Vec<usize>> {
-    for (i, frag) in split_commas(pat).into_iter().enumerate() {
-        for (j, t) in frag.iter().enumerate() {
-            if let proc_macro2::TokenTree::Punct(p) = t {
-                if p.as_char() == '$' {
-                    if let Some(proc_macro2::TokenTree::Ident(id)) = frag.get(j + 1) {
-                        if id == name {
-                            return Some(vec![i]);
-                        }
-                    }
+/// the `$name`s of one comma-separated fragment of a macro pattern, in order (top level of the fragment only)
+fn frag_params(frag: &[proc_macro2::TokenTree]) -> Vec<String> {
+    let mut out = vec![];
+    for (j, t) in frag.iter().enumerate() {
+        if let proc_macro2::TokenTree::Punct(p) = t {
+            if p.as_char() == '$' {
+                if let Some(proc_macro2::TokenTree::Ident(id)) = frag.get(j + 1) {
+                    out.push(id.to_string());
                 }
             }
+        }
+    }
+    out
+}
+
+/// path of comma-fragment indices to `$name`; when the fragment holds several parameters separated by literal `:`
+/// (`$a:ident : $b:ident`), a last element 1000 + k says "the k-th `:`-separated part"
+fn locate_param(pat: proc_macro2::TokenStream, name: &str) -> Option<Vec<usize>> {
+    for (i, frag) in split_commas(pat).into_iter().enumerate() {
+        let ps = frag_params(&frag);
+        if let Some(k) = ps.iter().position(|p| p == name) {
+            return Some(if ps.len() > 1 { vec![i, 1000 + k] } else { vec![i] });
+        }
+        for t in frag.iter() {
             if let proc_macro2::TokenTree::Group(g) = t {
                 if let Some(mut rest) = locate_param(g.stream(), name) {
                     let mut p = vec![i];
@@ -360,11 +399,39 @@ fn locate_param(pat: proc_macro2::TokenStream, name: &str) -> Option<Vec<usize>>
     None
 }
 
+/// split at single `:` tokens (not `::`)
+fn split_single_colons(frag: &[proc_macro2::TokenTree]) -> Vec<Vec<proc_macro2::TokenTree>> {
+    let mut out = vec![vec![]];
+    let mut i = 0;
+    while i < frag.len() {
+        if let proc_macro2::TokenTree::Punct(p) = &frag[i] {
+            if p.as_char() == ':' {
+                if p.spacing() == proc_macro2::Spacing::Joint && matches!(frag.get(i + 1), Some(proc_macro2::TokenTree::Punct(q)) if q.as_char() == ':') {
+                    out.last_mut().unwrap().push(frag[i].clone());
+                    out.last_mut().unwrap().push(frag[i + 1].clone());
+                    i += 2;
+                    continue;
+                }
+                out.push(vec![]);
+                i += 1;
+                continue;
+            }
+        }
+        out.last_mut().unwrap().push(frag[i].clone());
+        i += 1;
+    }
+    out
+}
+
 fn extract_arg(args: proc_macro2::TokenStream, path: &[usize]) -> Option<Vec<proc_macro2::TokenTree>> {
     let frags = split_commas(args);
     let frag = frags.get(path[0])?.clone();
     if path.len() == 1 {
         return Some(frag);
+    }
+    if path[1] >= 1000 {
+        let parts = split_single_colons(&frag);
+        return parts.get(path[1] - 1000).cloned();
     }
     for t in frag.iter() {
         if let proc_macro2::TokenTree::Group(g) = t {
@@ -481,7 +548,7 @@ impl Driver {
             let ts: proc_macro2::TokenStream = v.replace('~', " ").parse().map_err(|e| format!("binding `{}`: {}", b, e))?;
             bind.insert(k.trim_start_matches('$').to_string(), ts);
             let module = self.modules.len().saturating_sub(1);
-            self.macro_bindings.push(MacroBinding { file: file.to_string(), mac: name.to_string(), arm, param: k.trim_start_matches('$').to_string(), bound: v.replace('~', "").chars().filter(|c| !c.is_whitespace()).collect(), module });
+            self.macro_bindings.push(MacroBinding { file: file.to_string(), mac: name.to_string(), arm, param: k.trim_start_matches('$').to_string(), bound: v.replace('~', "").chars().filter(|c| !c.is_whitespace()).collect(), module, inst: vfile.to_string() });
         }
         let expanded = expand_template(body, &bind, &prefix);
         let parsed: File = syn::parse2(expanded).map_err(|e| format!("macro_rules! {} arm {}: the instantiated body does not parse as items: {}", name, arm, e))?;
@@ -557,8 +624,64 @@ impl Driver {
         Ok(())
     }
 
+    /// direct (top-level) invocations: the TUPLE of the arguments of the bound parameters must be that of one instance
+    fn check_macro_tuples(&mut self) {
+        let mut insts: BTreeMap<(String, String, usize), BTreeMap<String, (BTreeMap<String, String>, usize)>> = BTreeMap::new();
+        for b in self.macro_bindings.iter() {
+            let e = insts.entry((b.file.clone(), b.mac.clone(), b.arm)).or_default().entry(b.inst.clone()).or_insert((BTreeMap::new(), b.module));
+            e.0.insert(b.param.clone(), b.bound.clone());
+        }
+        let mut errs: Vec<(usize, String)> = vec![];
+        for ((file, mac, arm), by_inst) in insts {
+            let src = &self.sources[&file];
+            let def = all_items(&src.file.items).into_iter().find_map(|it| match it {
+                Item::Macro(m) if m.mac.path.is_ident("macro_rules") && m.ident.as_ref().map(|i| *i == mac).unwrap_or(false) => Some(m),
+                _ => None,
+            });
+            let def = match def {
+                Some(d) => d,
+                None => continue,
+            };
+            let arms = macro_arms(def);
+            let pat = match arms.get(arm) {
+                Some((p, _)) => p.clone(),
+                None => continue,
+            };
+            let arity = split_commas(pat.clone()).len();
+            let module = by_inst.values().next().map(|x| x.1).unwrap_or(0);
+            let params: BTreeSet<String> = by_inst.values().flat_map(|(m, _)| m.keys().cloned()).collect();
+            for it in all_items(&src.file.items) {
+                let m = match it {
+                    Item::Macro(m) if m.mac.path.is_ident(&mac) => m,
+                    _ => continue,
+                };
+                if split_commas(m.mac.tokens.clone()).len() != arity {
+                    continue;
+                }
+                let mut actual: BTreeMap<String, String> = BTreeMap::new();
+                for p in params.iter() {
+                    if let Some(path) = locate_param(pat.clone(), p) {
+                        if let Some(a) = extract_arg(m.mac.tokens.clone(), &path) {
+                            let txt: String = a.iter().map(|t| t.to_string()).collect::<Vec<_>>().join("").chars().filter(|c| !c.is_whitespace()).collect();
+                            actual.insert(p.clone(), txt);
+                        }
+                    }
+                }
+                let covered = by_inst.values().any(|(b, _)| b.iter().all(|(k, v)| actual.get(k) == Some(v)));
+                if !covered {
+                    let shown: Vec<String> = actual.iter().map(|(k, v)| format!("${}={}", k, v)).collect();
+                    errs.push((module, format!("{}: macro_rules! {} arm {}: the invocation with {} is not the instance of any configured `macro` line (add an instance with exactly these bindings)", file, mac, arm, shown.join(" "))));
+                }
+            }
+        }
+        for (m, e) in errs {
+            self.modules[m].errors.push(e);
+        }
+    }
+
     /// every actual argument of a bound macro parameter must be covered by the binding of some configured instance
     fn check_macro_bindings(&mut self) {
+        self.check_macro_tuples();
         let mut groups: BTreeMap<(String, String, usize, String), (BTreeSet<String>, usize)> = BTreeMap::new();
         for b in self.macro_bindings.iter() {
             let e = groups.entry((b.file.clone(), b.mac.clone(), b.arm, b.param.clone())).or_insert((BTreeSet::new(), b.module));
@@ -715,9 +838,14 @@ impl Driver {
         let mut fields = vec![];
         for (i, f) in st.fields.iter().enumerate() {
             let fname = f.ident.as_ref().map(|x| x.to_string()).unwrap_or_else(|| i.to_string());
-            let ty = match self.conv(&f.ty, &gens, Some(name), Some(name)) {
-                Ok(t) => subst_ty(&t, &subst),
-                Err(e) => Ty::Opaque(e),
+            let ty = if type_last_ident(&f.ty).as_deref() == Some("PhantomData") {
+                // zero-sized: no data, left out of constructor, literals and updates
+                Ty::Opaque("PhantomData".into())
+            } else {
+                match self.conv(&f.ty, &gens, Some(name), Some(name)) {
+                    Ok(t) => subst_ty(&t, &subst),
+                    Err(e) => Ty::Opaque(e),
+                }
             };
             fields.push((fname, ty));
         }
@@ -741,7 +869,14 @@ impl Driver {
         }
         let clone_ok = derives.contains("Clone") || derives.contains("Copy");
         // a generated record leaves out the fields whose type is outside the subset (then it cannot be constructed)
-        let has_opaque = generated && fields.iter().any(|(_, t)| matches!(t, Ty::Opaque(_)));
+        let has_opaque = generated && fields.iter().any(|(_, t)| matches!(t, Ty::Opaque(_)) && !is_phantom(t));
+        if !generated {
+            for ((f, t), p) in fields.iter().zip(projs.iter()) {
+                if is_phantom(t) && p != "-" {
+                    return Err(format!("struct `{}`: field `{}` is PhantomData, its projection must be `-`", name, f));
+                }
+            }
+        }
         let ctor = if has_opaque { "-".to_string() } else { ctor };
         let projs: Vec<String> = fields.iter().zip(projs).map(|((_, t), p)| if generated && matches!(t, Ty::Opaque(_)) { "-".to_string() } else { p }).collect();
         let info = StructInfo {
@@ -845,6 +980,13 @@ impl Driver {
                 const_generics.push((c.ident.to_string(), self.conv(&c.ty, &gens, st, None)?));
             }
         }
+        let impl_args: Vec<String> = match ff.impl_self.map(strip_group) {
+            Some(Type::Path(tp)) => match &tp.path.segments.last().unwrap().arguments {
+                PathArguments::AngleBracketed(a) => a.args.iter().map(|g| tokens_nospace(g)).collect(),
+                _ => vec![],
+            },
+            _ => vec![],
+        };
         // associated constants of generic type parameters (`R::BITS_PER_PIXEL`, `C::Raw::BITS_PER_PIXEL`)
         let mut assoc_params: Vec<(String, Ty)> = vec![];
         {
@@ -855,7 +997,7 @@ impl Driver {
             impl<'ast, 'g> syn::visit::Visit<'ast> for V<'g> {
                 fn visit_expr_path(&mut self, p: &'ast ExprPath) {
                     if p.qself.is_none() && p.path.segments.len() >= 2 && self.gens.contains(&p.path.segments[0].ident.to_string()) {
-                        let k = p.path.segments.iter().map(|s| s.ident.to_string()).collect::<Vec<_>>().join("::");
+                        let k = generic_item_key(&p.path);
                         if !self.found.contains(&k) {
                             self.found.push(k);
                         }
@@ -896,6 +1038,49 @@ impl Driver {
                         syn::visit::visit_expr_call(self, c);
                     }
                 }
+                // `self.m(..)` / `Self::m(..)` of the same impl header: the callee's abstracted items are the caller's
+                {
+                    struct S<'g> {
+                        fns: &'g Vec<FnInfo>,
+                        st: Option<&'g str>,
+                        impl_args: &'g Vec<String>,
+                        found: Vec<String>,
+                    }
+                    impl<'g> S<'g> {
+                        fn add(&mut self, name: &str) {
+                            for f in self.fns.iter().filter(|f| f.name == name && f.self_ty.as_deref() == self.st && self.st.is_some() && f.impl_args == *self.impl_args && f.generic_names.is_empty()) {
+                                for (k, _) in f.assoc_params.iter() {
+                                    if !self.found.contains(k) {
+                                        self.found.push(k.clone());
+                                    }
+                                }
+                            }
+                        }
+                    }
+                    impl<'ast, 'g> syn::visit::Visit<'ast> for S<'g> {
+                        fn visit_expr_method_call(&mut self, m: &'ast ExprMethodCall) {
+                            if matches!(&*m.receiver, Expr::Path(p) if p.path.is_ident("self")) {
+                                self.add(&m.method.to_string());
+                            }
+                            syn::visit::visit_expr_method_call(self, m);
+                        }
+                        fn visit_expr_call(&mut self, c: &'ast ExprCall) {
+                            if let Expr::Path(p) = &*c.func {
+                                if p.path.segments.len() == 2 && p.path.segments[0].ident == "Self" {
+                                    self.add(&p.path.segments[1].ident.to_string());
+                                }
+                            }
+                            syn::visit::visit_expr_call(self, c);
+                        }
+                    }
+                    let mut sv = S { fns: &self.tables.fns, st, impl_args: &impl_args, found: vec![] };
+                    syn::visit::Visit::visit_block(&mut sv, ff.block);
+                    for k in sv.found {
+                        if !v.found.contains(&k) {
+                            v.found.push(k);
+                        }
+                    }
+                }
                 let mut c = C { gens: &gens, fns: &self.tables.fns, found: vec![] };
                 syn::visit::Visit::visit_block(&mut c, ff.block);
                 for k in c.found {
@@ -905,7 +1090,7 @@ impl Driver {
                 }
             }
             for k in v.found {
-                let last = k.rsplit("::").next().unwrap().to_string();
+                let last = k.split("::<").next().unwrap().rsplit("::").next().unwrap().to_string();
                 match self.tables.assoc_tys.get(&last) {
                     Some(t) => assoc_params.push((k, t.clone())),
                     None => return Err(format!("{} `{}`: `{}` is an associated item of a generic parameter; give its type with an `assoc {} <type>` line", file, spec, k, last)),
@@ -1001,7 +1186,7 @@ impl Driver {
         if self.tables.fns.iter().any(|f| f.coq == coq) {
             return Err(format!("{} `{}`: Coq name `{}` is already used (give `as=`)", file, spec, coq));
         }
-        let info = FnInfo { key: spec.to_string(), name: name.clone(), coq, self_ty: self_ty.clone(), trait_name: trait_spec.clone(), self_kind, const_generics, assoc_params, params, mut_params, mvars, generic_names: ff.sig.generics.params.iter().filter_map(|p| if let GenericParam::Type(t) = p { Some(t.ident.to_string()) } else { None }).collect(), file: file.to_string(), ret, fuel: false };
+        let info = FnInfo { key: spec.to_string(), name: name.clone(), coq, self_ty: self_ty.clone(), trait_name: trait_spec.clone(), self_kind, const_generics, assoc_params, params, mut_params, mvars, generic_names: ff.sig.generics.params.iter().filter_map(|p| if let GenericParam::Type(t) = p { Some(t.ident.to_string()) } else { None }).collect(), impl_args: impl_args.clone(), file: file.to_string(), ret, fuel: false };
         self.tables.fns.push(info);
         let idx = self.tables.fns.len() - 1;
         self.jobs.push(FnJob { file: file.to_string(), self_ty, trait_spec, name, info_idx: idx, module });
@@ -1140,7 +1325,7 @@ impl Driver {
             env.push(n, var(c, t.clone()));
         }
         for (n, t) in info.assoc_params.iter() {
-            let c = tr.fresh(&n.replace("::", "_"));
+            let c = tr.fresh(&sanitize(&n.replace("::", "_")));
             write!(binders, " ({} : {})", c, self.tables.coq_ty(t).map_err(nf)?).unwrap();
             env.push(n, var(c, t.clone()));
         }
@@ -1378,7 +1563,8 @@ fn main() {
             }
             "assoc" if w.len() == 3 => {
                 let t: R<Type> = syn::parse_str(w[2]).map_err(|e| e.to_string());
-                t.and_then(|t| d.conv(&t, &BTreeSet::new(), None, None)).map(|t| {
+                let gens: BTreeSet<String> = d.tables.tyvars.keys().cloned().collect();
+                t.and_then(|t| d.conv(&t, &gens, None, None)).map(|t| {
                     d.tables.assoc_tys.insert(w[1].to_string(), t);
                 })
             }
